@@ -10,7 +10,8 @@ import sys, os
 sys.path.insert(0, os.path.dirname(os.path.abspath(__file__)))
 import common, population, refcheck
 
-THEOREMS = ["Nmfu.C01_machine_refines_reference", "Nmfu.certOK_sound", "Nmfu.certOK_lag_one"]
+THEOREMS = ["Nmfu.C01_machine_refines_reference", "Nmfu.certOK_sound", "Nmfu.certOK_lag_one",
+            "Nmfu.C01_perbyte_append", "Nmfu.C01_perbyte_if", "Nmfu.C01_perbyte_if_else"]
 EXCLUDE = {"lexer.nmfu": "certificate exploration exceeds the time limit (greedy case over large classes)",
            "gtfs-realtime.nmfu": "nested foreach + end-of-input slack not covered by the relaxed comparison",
            "condition-foreach.ok.nmfu": "foreach action block containing a conditional with matches (exporter)"}
